@@ -30,8 +30,12 @@ def static_clause(scratch):
     out = os.path.join(tmp, "fresh")
     r = subprocess.run([core.PY, os.path.join(core.HERE, "tablegen.py"), tmp, "fresh", out], stdout=subprocess.PIPE,
                        stderr=subprocess.DEVNULL, text=True, timeout=600, env=core.worker_env(0))
-    if r.returncode != 0 or not r.stdout.strip():
-        raise RuntimeError("fresh table generation failed (rc=%s)" % r.returncode)
+    if r.returncode != 0 or not r.stdout.strip() or not os.path.exists(os.path.join(out, "parsetab.py")):
+        # PLY cannot build tables from the declared grammar at all.  The static clause has nothing to compare with; the
+        # 'missing' / 'stale' cache states of the sweep exercise the library's own regeneration and report it.
+        info["clause"] = "not evaluated: a fresh generation from the declared grammar failed (rc=%s)" % r.returncode
+        info["fresh_generation_failed"] = True
+        return info, None
     fresh = _load_table(os.path.join(out, "parsetab.py"))
     info["grammar_signature_sha"] = core.hashlib.sha256(fresh["_lr_signature"].encode()).hexdigest()[:16]
     info["fresh_states"] = len(set(s for v in fresh["_lr_action"].values() for s in v)) if fresh.get("_lr_action") else 0
@@ -117,7 +121,9 @@ def run(tier):
                     foreign["strength"] = {k: res.get(k) for k in ("items", "differing", "differing_per_chunk", "ctor_exc")}
                     if res.get("foreign"):
                         foreign.update(res["foreign"])
-                    if not res.get("differing") or min(res.get("differing_per_chunk") or [0]) == 0:
+                    if res.get("unavailable"):
+                        foreign["strength"] = "unavailable (no table can be generated from the declared grammar)"
+                    elif not res.get("differing") or min(res.get("differing_per_chunk") or [0]) == 0:
                         report.harness_errors.append("foreign-table fault is too weak to be observable: %s" % foreign["strength"])
                     return
                 if job["cmd"] == "custom":
@@ -167,9 +173,9 @@ def run(tier):
             "samples": agg.samples or ["(none)"],
             "static_clause": static_info,
             "sweep": dict(sweep_info, complete=sweep_complete,
-                          axes="state {valid, missing, stale_benign, stale_foreign, old_version, as_found} x {writable, unwritable(EACCES)} x 4 workload chunks, plus each state once under python -O"),
+                          axes="state {valid, missing, stale_benign, stale_foreign, old_version, as_found} x {writable, unwritable(EACCES)} x 4 workload chunks, plus each state once under python -O, plus {missing, stale_benign, stale_foreign, old_version} x kill -9 at {start of regeneration, just before the table write} followed by a restart on what was left"),
             "foreign_table": foreign,
-            "faults_fired": {k: v for k, v in sorted(agg.stats.items()) if k.startswith("state_") or k.startswith("write_fault") or k.startswith("interp_")},
+            "faults_fired": {k: v for k, v in sorted(agg.stats.items()) if k.startswith(("state_", "write_fault", "interp_", "crash_"))},
             "probes": {k: agg.stats[k] for k in ("incarnations", "items_parsed", "outcomes_compared", "cache_rewritten",
                                                  "started_with_invalid_cache", "cache_repaired")},
             "transitions_seen": len(cells),
